@@ -29,18 +29,16 @@ def checks(env):
     return fired
 
 
-def main():
-    args = [a for a in sys.argv[1:] if not a.startswith('--')]
-    via_repo = '--via-repo' in sys.argv
-    names = args or sorted(os.listdir(SEEDED))
-    rows = []
-    for nm in names:
+def one(nm, via_repo=False):
+    if True:
         d = os.path.join(SEEDED, nm)
         patch = os.path.join(d, 'patch.diff')
         if not os.path.exists(patch):
-            continue
+            return None
         meta = json.load(open(os.path.join(d, 'meta.json')))
         env = dict(os.environ)
+        SCRATCH_ROOT = '/tmp/cachelito_seedrun_%s' % nm
+        SCRATCH = SCRATCH_ROOT + '/repo'
         if via_repo:
             assert subprocess.run(['git', '-C', '/repo', 'status', '--short'], capture_output=True, text=True).stdout.strip() == '', '/repo not clean'
             subprocess.check_call(['git', '-C', '/repo', 'apply', patch])
@@ -49,21 +47,39 @@ def main():
             finally:
                 subprocess.check_call(['git', '-C', '/repo', 'checkout', '--', '.'])
         else:
-            shutil.rmtree('/tmp/cachelito_seedrun', ignore_errors=True)
-            os.makedirs('/tmp/cachelito_seedrun')
+            shutil.rmtree(SCRATCH_ROOT, ignore_errors=True)
+            os.makedirs(SCRATCH_ROOT)
             subprocess.check_call(['rsync', '-a', '--exclude', 'target', '--exclude', '.git', '/repo/', SCRATCH + '/'])
             subprocess.check_call(['git', 'init', '-q'], cwd=SCRATCH)
             subprocess.check_call(['git', 'apply', patch], cwd=SCRATCH)
             env['VERIF_REPO'] = SCRATCH
-            fired = checks(env)
+            try:
+                fired = checks(env)
+            finally:
+                shutil.rmtree(SCRATCH_ROOT, ignore_errors=True)
         meta['checks_fired'] = fired
         meta['caught'] = bool(fired)
         meta['caught_by_own_property'] = meta['property'] in fired
         with open(os.path.join(d, 'meta.json'), 'w') as f:
             json.dump(meta, f, indent=1)
-        rows.append((nm, meta['property'], sorted(fired)))
         print(nm, 'CAUGHT' if fired else 'MISSED', {k: [x.split(':', 2)[2][:60] for x in v][:2] for k, v in fired.items()}, flush=True)
-    shutil.rmtree('/tmp/cachelito_seedrun', ignore_errors=True)
+        return (nm, meta['property'], sorted(fired))
+
+
+def main():
+    args = [a for a in sys.argv[1:] if not a.startswith('--')]
+    via_repo = '--via-repo' in sys.argv
+    jobs = 1
+    for a in sys.argv[1:]:
+        if a.startswith('--jobs='):
+            jobs = int(a.split('=')[1])
+    names = args or sorted(os.listdir(SEEDED))
+    if via_repo or jobs == 1:
+        rows = [r for r in (one(nm, via_repo) for nm in names) if r]
+    else:
+        from multiprocessing import Pool
+        with Pool(jobs) as pool:
+            rows = [r for r in pool.map(one, names) if r]
     print('%d seeds, %d caught, %d by their own property' % (len(rows), sum(1 for r in rows if r[2]), sum(1 for r in rows if r[1] in r[2])))
 
 
